@@ -646,7 +646,7 @@ class CallMixin:
                 return Term("items", (recv,), kind="iterator", node=node)
             if attr == "keys":
                 if recv.concrete():
-                    return ListV([k for k, _ in recv.pairs()])
+                    return SetV([k for k, _ in recv.pairs()])      # a keys view: iterable, supports set algebra
                 return Term("keys", (recv,), kind="sequence", node=node)
             if attr == "values":
                 if recv.concrete():
